@@ -53,6 +53,9 @@ func (f *FuncCtx) specExpr(e ast.Expr, env *Env) Val {
 	if p, ok := e.(*ast.ParenExpr); ok {
 		return f.specExpr(p.X, env)
 	}
+	if b, ok := e.(*ast.BinaryExpr); ok && b.Op == token.LOR {
+		return f.binary(b, env)
+	}
 	return f.expr(e, env)
 }
 
